@@ -182,9 +182,22 @@ def run_check(spec, tier, seed):
     if hasattr(spec, 'bounded'):
         try:
             spec.bounded(tier, seed, bres)
-        except Exception:
-            traceback.print_exc()
-            crashed = True
+        except Exception as e:
+            tb = traceback.extract_tb(sys.exc_info()[2])
+            inner = tb[-1] if tb else None
+            repo_real = os.path.realpath(REPO)
+            if inner is not None and os.path.realpath(inner.filename).startswith(repo_real + os.sep):
+                # the library itself raised on an operation that the driver performs successfully on the unchanged tree
+                drv = [f for f in tb if os.path.realpath(f.filename).startswith(os.path.realpath(HERE) + os.sep)]
+                where = "%s:%s" % (os.path.relpath(inner.filename, repo_real), inner.name)
+                bres.fail("library-exception|%s|%s" % (where, type(e).__name__),
+                          "the library raised %s: %s in %s (line %d) during a driver operation that succeeds on the unchanged tree; driver frame: %s"
+                          % (type(e).__name__, e, where, inner.lineno, ("%s:%d %s" % (os.path.basename(drv[-1].filename), drv[-1].lineno, drv[-1].line)) if drv else '?'),
+                          None)
+                bres.notes.append("bounded driver stopped early by a library exception: " + ''.join(traceback.format_exception_only(type(e), e)).strip())
+            else:
+                traceback.print_exc()
+                crashed = True
     # an obligation refuted without a replayable model: second search = the bounded driver
     for x, extra, modname in unconfirmed:
         related = [f for f in bres.failures if getattr(f, 'function', None) in (None, x['function'])]
